@@ -54,6 +54,19 @@ def enum_units(tier, seed):
         {"t": "reject", "why": "undefined macro (defined later)", "rom": "low", "ir": [org, {"k": "call", "n": "m_a", "args": [L(1), L(2)]}, M]},
         {"t": "reject", "why": "too few arguments", "rom": "low", "ir": [org, M, {"k": "call", "n": "m_a", "args": [L(1)]}]},
         {"t": "reject", "why": "no arguments", "rom": "low", "ir": [org, M, {"k": "call", "n": "m_a", "args": []}]},
+        # too few arguments is an error whatever the body does with the missing parameter and whatever the call site defines
+        {"t": "reject", "why": "too few arguments (the missing parameter is not used by the body)", "rom": "low",
+         "ir": [org, {"k": "macro", "n": "m_u", "ps": ["p_ux", "p_uy"], "b": [{"k": "data", "d": "db", "es": [["id", "p_ux"]]}]}, {"k": "call", "n": "m_u", "args": [L(1)]}]},
+        {"t": "reject", "why": "too few arguments (a := constant of the call site has the missing parameter's name)", "rom": "low",
+         "ir": [{"k": "const", "n": "p_ay", "e": L(0x77), "eager": True}, org, M, {"k": "call", "n": "m_a", "args": [L(1)]}]},
+        {"t": "reject", "why": "too few arguments (a = constant of the call site has the missing parameter's name)", "rom": "low",
+         "ir": [{"k": "const", "n": "p_ay", "e": L(0x77), "eager": False}, org, M, {"k": "call", "n": "m_a", "args": [L(1)]}]},
+        {"t": "reject", "why": "too few arguments (a label of the call site has the missing parameter's name)", "rom": "low",
+         "ir": [org, {"k": "label", "n": "p_ay"}, M, {"k": "call", "n": "m_a", "args": [L(1)]}]},
+        {"t": "reject", "why": "no argument for a macro with one unused parameter", "rom": "low",
+         "ir": [org, {"k": "macro", "n": "m_v", "ps": ["p_vx"], "b": [{"k": "data", "d": "db", "es": [L(9)]}]}, {"k": "call", "n": "m_v", "args": []}]},
+        {"t": "reject", "why": "too few arguments in a nested application", "rom": "low",
+         "ir": [{"k": "const", "n": "p_ay", "e": L(5), "eager": True}, org, M, {"k": "macro", "n": "m_w", "ps": ["p_wx"], "b": [{"k": "call", "n": "m_a", "args": [["id", "p_wx"]]}]}, {"k": "call", "n": "m_w", "args": [L(3)]}]},
         {"t": "reject", "why": "too few arguments in a nested call", "rom": "high", "ir": [
             {"k": "org", "a": 0xC08000}, M, {"k": "macro", "n": "m_b", "ps": ["p_bx"], "b": [{"k": "call", "n": "m_a", "args": [["id", "p_bx"]]}]},
             {"k": "call", "n": "m_b", "args": [L(3)]}]},
